@@ -148,7 +148,18 @@ Theorem C02_agg_params_class : forall c nals,
 Proof. exact agg_params_class. Qed.
 Print Assumptions C02_agg_params_class.
 
-(* the fuel of the aggregation scan is never used up: the only outcomes are a kind or Panic *)
+(* for EVERY byte string on every channel the caches classify the packet: no index out of range
+   (the repair of D11 in /repo: 5bcf7ee, 3483165) and the fuel of the aggregation scan is never
+   used up; the kind is one of 0..5 *)
+Theorem C02_classify_total : forall c ch payload, exists k, classify c ch payload = CK k.
+Proof. exact classify_total. Qed.
+Print Assumptions C02_classify_total.
+
+Theorem C02_classify_kind_range : forall c ch payload k,
+  classify c ch payload = CK k -> (0 <= k <= 5)%Z.
+Proof. exact classify_kind_range. Qed.
+Print Assumptions C02_classify_kind_range.
+
 Theorem C02_classify_no_fuel : forall c ch payload, classify c ch payload <> CFuel.
 Proof. exact classify_no_fuel. Qed.
 Print Assumptions C02_classify_no_fuel.
